@@ -60,7 +60,8 @@ def admissible_non_id(c, earlier_fulls):
     cases = [(f, k) for f, k in earlier_fulls if isinstance(f, FullCaseCitation)]
     if isinstance(c, ShortCaseCitation):
         cand = [(f, k) for f, k in cases
-                if norm_reporter(f) == norm_reporter(c) and f.groups.get("volume") == c.groups.get("volume")]
+                if (norm_reporter(f) == norm_reporter(c) or f.groups.get("reporter") == c.groups.get("reporter"))
+                and f.groups.get("volume") == c.groups.get("volume")]
         ks = {k for _, k in cand}
         if len(ks) == 1:
             return ks
